@@ -56,6 +56,19 @@ func (w *World) Brief() []string {
 	if w.BANP != nil {
 		res = append(res, "banp "+w.BANP.String())
 	}
+	for _, s := range w.Svcs {
+		res = append(res, fmt.Sprintf("service %s/%s selector=%v ports=%v", s.NS, s.Name, s.Sel, s.Ports))
+	}
+	for _, i := range w.Ings {
+		d := "-"
+		if i.Default != nil {
+			d = fmt.Sprintf("%+v", *i.Default)
+		}
+		res = append(res, fmt.Sprintf("ingress %s/%s defaultBackend=%s rules=%+v", i.NS, i.Name, d, i.Rules))
+	}
+	for _, r := range w.Routes {
+		res = append(res, fmt.Sprintf("route %s/%s to=%v targetPort=%s", r.NS, r.Name, r.To, r.Target))
+	}
 	return res
 }
 
